@@ -426,6 +426,9 @@ func malformed() []badReq {
 		h("complete:empty-body", "PATCH", "/promises/p", `{}`),
 		h("complete:pending", "PATCH", "/promises/p", `{"state":"PENDING"}`),
 		h("complete:bogus", "PATCH", "/promises/p", `{"state":"BOGUS"}`),
+		h("complete:timedout", "PATCH", "/promises/p", `{"state":"REJECTED_TIMEDOUT"}`),
+		h("complete:lowercase", "PATCH", "/promises/p", `{"state":"resolved"}`),
+		h("complete:numeric-state", "PATCH", "/promises/p", `{"state":1}`),
 		h("complete:null-value", "PATCH", "/promises/p", `{"state":"RESOLVED","value":null}`),
 		h("callback:empty-body", "POST", "/callbacks", `{}`),
 		h("callback:neg-timeout", "POST", "/callbacks", `{"promiseId":"p","rootPromiseId":"r","timeout":-1,"recv":"default"}`),
